@@ -99,6 +99,31 @@ pub fn corruptions(e: &Entry, enc: &Encoded, done: &mut BTreeSet<(String, String
                 *b = b'A';
             }
             push("string-unterminated".into(), site.clone(), Some(f), i > 0, &mut out);
+            // a NUL-terminated string replaced by one around the readers' 256-byte cut-off (with and without NUL), the rest
+            // of the body kept, then the body cut at each of the following field boundaries: what the reader counted for
+            // the string and what it consumed must not drift apart
+            if leaves.get(i + 1).map(|n| n.role == Role::Terminator && n.offset == l.offset + l.width).unwrap_or(false) {
+                let after = l.offset + l.width + 1;
+                for n in [255usize, 256, 257, 300] {
+                    for nul in [false, true] {
+                        let mut b: Vec<u8> = body[..l.offset].to_vec();
+                        b.extend(std::iter::repeat(b'A').take(n));
+                        if nul {
+                            b.push(0);
+                        }
+                        let head = b.len();
+                        b.extend_from_slice(&body[after.min(body.len())..]);
+                        let tag = format!("string-long-{}{}", n, if nul { "-nul" } else { "" });
+                        push(tag.clone(), site.clone(), with_header(e, &b), i > 0, &mut out);
+                        for (k, later) in leaves.iter().skip(i + 2).take(12).enumerate() {
+                            let cut = head + (later.offset + later.width).saturating_sub(after);
+                            if cut < b.len() {
+                                push(format!("{}:cut-after-field+{}", tag, k + 1), site.clone(), with_header(e, &b[..cut]), true, &mut out);
+                            }
+                        }
+                    }
+                }
+            }
         }
     }
     // header size smaller / larger than the body
@@ -400,7 +425,7 @@ pub fn run(tier: Tier, replay: Option<String>) -> i32 {
             Err(_) => 2,
         };
     }
-    c.rule = "per message: structured corruptions of the encodings reached by directed enumeration, built from the model's trace - truncation at every field boundary and mid-field (header consistent and stale), every count/length/size field set to 0, 1, true+-1, 0x7f.., 0xff.., 2^16, 2^24, every enum/bool/flag/mask/date field set to out-of-range patterns, strings made invalid UTF-8 / unterminated, header size 0/<opcode/-1/+1/+1000/max, zlib payloads truncated/bit-flipped/garbage/declared huge/zero/small/bombs - then random bodies under a consistent header and raw byte strings per endpoint. Each case runs in an isolated worker (address-space limit = the worker's footprint, re-read every 128 cases, + 1.5 GiB; watchdog). Oracle: the call returns Ok or Err. Non-trivial = the corruption lies past the first field or the read got past the size window / opcode dispatch; distinct = (entry, corrupted site without indices, corruption kind).".into();
+    c.rule = "per message: structured corruptions of the encodings reached by directed enumeration, built from the model's trace - truncation at every field boundary and mid-field (header consistent and stale), every count/length/size field set to 0, 1, true+-1, 0x7f.., 0xff.., 2^16, 2^24, every enum/bool/flag/mask/date field set to out-of-range patterns, strings made invalid UTF-8 / unterminated / 255..300 bytes long with the body cut after each of the next fields, header size 0/<opcode/-1/+1/+1000/max, zlib payloads truncated/bit-flipped/garbage/declared huge/zero/small/bombs - then random bodies under a consistent header and raw byte strings per endpoint. Each case runs in an isolated worker (address-space limit = the worker's footprint, re-read every 128 cases, + 1.5 GiB; watchdog). Oracle: the call returns Ok or Err. Non-trivial = the corruption lies past the first field or the read got past the size window / opcode dispatch; distinct = (entry, corrupted site without indices, corruption kind).".into();
     c.assume("a worker killed by its watchdog is reported as inconclusive (exit 2), never as a violation");
     c.assume("memory budget per decode: 1.5 GiB beyond the footprint of the worker at that time (soft RLIMIT_AS, re-based on /proc/self/statm every 128 cases, so the encodings the harness holds do not count); a frame is at most 64 KiB (Vanilla/TBC) or 8 MiB (Wrath server)");
     let only = std::env::var("VERIF_ONLY").ok();
